@@ -106,6 +106,20 @@ def build_component(comp, workdir):
             break   # not attributable to one contract: the groups report the compiler message
         dropped.append(bad[0])
     meta['dropped_contracts'] = list(dropped)
+    # functions that did not exist when the contracts were written, have no contract and are not called from any other
+    # extracted function: nothing checks them (a new public member can break a property on its own)
+    meta['unchecked_new_functions'] = []
+    try:
+        base = json.load(open(os.path.join(ROOT, 'contracts', 'signatures.json'))).get(comp.name + '#functions')
+    except Exception:
+        base = None
+    if base is not None:
+        bodies = {m.group(1): m.group(2) for m in re.finditer(r'^/\*@FUNC (\w+)\*/\n[^\n]*\n(.*?)^\}\n', raw_text, re.M | re.S)}
+        for f in bodies:
+            if f in base or f in comp.functions or any(g.enforce == f for g in comp.groups):
+                continue
+            if not any(re.search(r'\b%s\(' % re.escape(f), b) for f2, b in bodies.items() if f2 != f):
+                meta['unchecked_new_functions'].append(f)
     meta['missing_contracts'] = []
     if missing or missing_l:
         # a contract whose function/loop no longer exists is undecided (exit 2), never a verdict; the remaining
@@ -405,6 +419,9 @@ def main():
                 # the bounded native stand-ins do not depend on the extraction: still run them
                 metas[c.name] = {'missing_contracts': [], 'sigs': {}, 'tagmap': {}, 'cfile': '', 'static_facts': []}
                 gs = [g for g in gs if g.native]
+            if metas[c.name].get('unchecked_new_functions'):
+                infra.append('%s: new function(s) without a contract and without a caller in the checked code, so nothing decides what they do to %s: %s' % (
+                    c.name, prop, ', '.join(metas[c.name]['unchecked_new_functions'])))
             if metas[c.name]['missing_contracts']:
                 infra.append('%s: contracts without a matching extracted function/loop (renamed or removed?): %s' % (c.name, ', '.join(metas[c.name]['missing_contracts'])))
             for g in gs:
